@@ -1,7 +1,11 @@
 ---------------------------- MODULE MC_XlsxSheet ----------------------------
 EXTENDS XlsxSheet, Json
 
-CONSTANTS RowSet, ColSet, MaxCells, FormSet, DimKinds, GapToks, Ignorables, MaxGaps, PkgVary
+CONSTANTS RowSet, ColSet, MaxCells, FormSet, DimKinds, GapToks, Ignorables, MaxGaps, PkgVary,
+          LaxRows   \* TRUE: the style of writers that leave r off every <row> and put it on every <c>
+                    \* -- the cell's own reference is then the only statement of its position, at
+                    \* any row (an implicit <row> is not confined to previous + 1), and no cell or
+                    \* gap row is implicit; FALSE: the ECMA implicit-cursor rule for rows and cells
 
 VARIABLES pkg,                       \* physical package configuration (fixed per behaviour)
           doc,                       \* the logical document (fixed per behaviour)
@@ -80,7 +84,7 @@ WIgn(n) ==
 WRow(explicit) ==
   /\ ~done /\ ~inrow /\ todo # <<>>
   /\ LET r == Head(todo)[1] IN
-     /\ explicit \/ r = NextImplicitRow
+     /\ explicit \/ r = NextImplicitRow \/ LaxRows
      /\ EmitRead([k |-> "row", r |-> r, x |-> explicit])
      /\ wrow' = r /\ inrow' = TRUE /\ anyrow' = TRUE /\ anycol' = FALSE /\ wcol' = 0
   /\ UNCHANGED <<pkg, doc, todo, done>>
@@ -90,7 +94,7 @@ WEmptyRow(r, explicit) ==
   /\ ~done /\ ~inrow /\ "emptyrow" \in GapToks
   /\ r >= NextImplicitRow
   /\ (IF todo = <<>> THEN TRUE ELSE r < Head(todo)[1])
-  /\ explicit \/ r = NextImplicitRow
+  /\ explicit \/ (r = NextImplicitRow /\ ~LaxRows)
   /\ EmitRead([k |-> "emptyrow", r |-> r, x |-> explicit])
   /\ wrow' = r /\ anyrow' = TRUE
   /\ UNCHANGED <<pkg, doc, todo, inrow, wcol, anycol, done>>
@@ -108,7 +112,7 @@ WCell(explicit) ==
   /\ Head(todo)[1] = wrow
   /\ LET p == Head(todo)
          fm == FormDef(doc[p])
-     IN /\ explicit \/ p[2] = NextImplicitCol
+     IN /\ explicit \/ (p[2] = NextImplicitCol /\ ~LaxRows)
         /\ EmitRead([k |-> "c", p |-> p, x |-> explicit, t |-> fm.t, s |-> fm.s, f |-> fm.f, v |-> fm.v, is |-> fm.is])
         /\ wcol' = p[2] /\ anycol' = TRUE
   /\ todo' = Tail(todo)
@@ -119,7 +123,7 @@ WEmptyCell(c, explicit) ==
   /\ ~done /\ inrow /\ "emptycell" \in GapToks
   /\ c >= NextImplicitCol
   /\ (IF todo = <<>> THEN TRUE ELSE (Head(todo)[1] = wrow => c < Head(todo)[2]))
-  /\ explicit \/ c = NextImplicitCol
+  /\ explicit \/ (c = NextImplicitCol /\ ~LaxRows)
   /\ EmitRead([k |-> "c", p |-> <<wrow, c>>, x |-> explicit, t |-> None, s |-> "0", f |-> None, v |-> None, is |-> None])
   /\ wcol' = c /\ anycol' = TRUE
   /\ UNCHANGED <<pkg, doc, todo, wrow, inrow, anyrow, done>>
